@@ -51,6 +51,8 @@ VerdictKey(t) ==
     ELSE IF t.nocc > 1 THEN "violation:duplicate-key"
     ELSE IF t.table = "elements" /\ t.nocc = 1 /\ t.arity # t.runarity THEN "violation:table-arity-differs-from-source"
     ELSE IF "lamarity" \in DOMAIN t /\ t.lamarity # -1 /\ t.lamarity # t.runarity THEN "violation:arity-as-modifier-operand"
+    \* a modifier applied to distinct operands groups them as the reference parser does (each operand reachable, in order)
+    ELSE IF "modtext" \in DOMAIN t /\ t.modtext # <<>> /\ t.modtree # ParseText(t.modtext) THEN "violation:modifier-operands"
     ELSE IF ~LexesAsOneToken(t.key) THEN "drift:spec-lexer"
     ELSE IF t.table = "elements" /\ ~ParsesAsElement(t.key) THEN "drift:spec-parser"
     ELSE "ok"
@@ -69,6 +71,8 @@ Verdict(t) ==
     CASE t.op = "codepage" -> VerdictCodepage(t)
       [] t.op = "bytes" -> VerdictBytes(t)
       [] t.op = "key" -> VerdictKey(t)
+      \* a variable access as a modifier operand: a get is a constant (arity 0), a set takes one value -- whatever the name
+      [] t.op = "varop" -> IF t.lamarity # t.want THEN "violation:arity-as-modifier-operand" ELSE "ok"
       [] OTHER -> VerdictDoc(t)
 
 Init == tid \in 1..Len(Batch) /\ phase = "start"
